@@ -4,9 +4,9 @@
 import glob, json, os, re, shutil
 ROOT = "/verif/seeded"
 rows = []
-for d in sorted(glob.glob("/tmp/seed-C*/OUT/m*")) + sorted(glob.glob("/tmp/seed2-C*/OUT/m*")) + sorted(glob.glob("/tmp/seed3-C*/OUT/m*")) + sorted(glob.glob("/tmp/seed4-C*/OUT/m*")):
-    name = ("r4-" + d.replace("/tmp/seed4-", "") if d.startswith("/tmp/seed4-") else "r3-" + d.replace("/tmp/seed3-", "") if d.startswith("/tmp/seed3-") else "r2-" + d.replace("/tmp/seed2-", "") if d.startswith("/tmp/seed2-") else d.replace("/tmp/seed-", "")).replace("/OUT/", "-")
-    pid = name.replace("r2-", "").replace("r3-", "").replace("r4-", "").split("-")[0]
+for d in sorted(glob.glob("/tmp/seed-C*/OUT/m*")) + sorted(glob.glob("/tmp/seed2-C*/OUT/m*")) + sorted(glob.glob("/tmp/seed3-C*/OUT/m*")) + sorted(glob.glob("/tmp/seed4-C*/OUT/m*")) + sorted(glob.glob("/tmp/seed5-C*/OUT/m*")):
+    name = ("r5-" + d.replace("/tmp/seed5-", "") if d.startswith("/tmp/seed5-") else "r4-" + d.replace("/tmp/seed4-", "") if d.startswith("/tmp/seed4-") else "r3-" + d.replace("/tmp/seed3-", "") if d.startswith("/tmp/seed3-") else "r2-" + d.replace("/tmp/seed2-", "") if d.startswith("/tmp/seed2-") else d.replace("/tmp/seed-", "")).replace("/OUT/", "-")
+    pid = name.replace("r2-", "").replace("r3-", "").replace("r4-", "").replace("r5-", "").split("-")[0]
     dst = os.path.join(ROOT, name)
     os.makedirs(dst, exist_ok=True)
     for f in ("patch.diff", "demo.rs", "README.md"):
